@@ -215,3 +215,27 @@ Fixpoint call_order (s : stmt) (inert : bool) : order_res :=
       | OFalls i, OFalls j => if Bool.eqb i j then OFalls i else OViolation
       end
   end.
+
+(* ---- "f is called before g on every path through s": used for the loop over reaction steps (the reference
+   amounts `initial_moles` must be reset - set_initial_moles - before the step is solved - run_reactions).
+   [seen] : f has been called on every path so far; None : g is reached on some path without f. *)
+Fixpoint call_before (f g : string) (s : stmt) (seen : bool) : option bool :=
+  match s with
+  | SCall h => if String.eqb h g then (if seen then Some seen else None)
+               else if String.eqb h f then Some true else Some seen
+  | SSeq a b => match call_before f g a seen with Some s1 => call_before f g b s1 | None => None end
+  | SIf _ a b => match call_before f g a seen, call_before f g b seen with
+                 | Some s1, Some s2 => Some (s1 && s2)
+                 | _, _ => None
+                 end
+  | SLoop a => match call_before f g a seen with Some _ => Some seen | None => None end
+  | _ => Some seen
+  end.
+
+Fixpoint calls (g : string) (s : stmt) : bool :=
+  match s with
+  | SCall h => String.eqb h g
+  | SSeq a b | SIf _ a b => calls g a || calls g b
+  | SLoop a => calls g a
+  | _ => false
+  end.
